@@ -537,8 +537,10 @@ func main() {
 	explore(5*time.Second, 2*time.Second, depth, false)
 	explore(30*time.Second, 10*time.Second, depth-1, false)
 	explore(7*time.Second, 3*time.Second, 3, true)
+	// short intervals: the backoff cap (interval x 12) stays below the breaker timeout, so every tick is due
+	explore(time.Second, 500*time.Millisecond, depth-1, false)
+	explore(2*time.Second, time.Second, depth-1, false)
 	if report.Thorough() {
-		explore(time.Second, 500*time.Millisecond, depth-1, false)
 		explore(61*time.Second, 30*time.Second, depth-1, false)
 	}
 	// validation neighbours that LoadFromConfig must refuse
@@ -555,7 +557,7 @@ func main() {
 			}
 		}
 	}
-	res.Info["bounds"] = map[string]any{"depth": depth, "events": "tick x {ok, slow-ok(11 s), 404, 500, slow-500, timeout, refuse(depth<=3)}, wait 1 s, wait 31 s, proxy-detected failure", "intervals": "(5s,2s) depth d; (30s,10s) depth d-1; (7s,3s) depth 3 with refuse; thorough adds (1s,0.5s), (61s,30s)",
+	res.Info["bounds"] = map[string]any{"depth": depth, "events": "tick x {ok, slow-ok(11 s), 404, 500, slow-500, timeout, refuse(depth<=3)}, wait 1 s, wait 31 s, proxy-detected failure", "intervals": "(5s,2s) depth d; (30s,10s), (1s,0.5s), (2s,1s) depth d-1; (7s,3s) depth 3 with refuse; thorough adds (61s,30s)",
 		"liveness": "from every reached state: works-again continuation (first real probe within 150 s, then healthy) and all-failing continuation (gap between real probes <= 150 s)", "state_dedup": "none"}
 	res.Info["rule"] = "every history is executed on a fresh real repository + health checker + health client + breaker + retry handler under a frozen virtual clock; asynchronous recovery callbacks are run to quiescence by the controlled scheduler; status, failure count, NextCheckTime-LastChecked, real probe count and callback count compared after every event"
 	res.Assume("time owned through the vclock seam in internal/adapter/health, core/retry.go and discovery/repository.go", "real sockets and http.Client timeouts are replaced by a scripted HTTPClient (their classification is exercised through STACK in C04/C20)",
